@@ -4,6 +4,11 @@ HERE = os.path.dirname(os.path.dirname(os.path.abspath(__file__)))
 BASE = json.load(open("/root/.vp/BASELINE.json"))["cmd"]
 
 CHECKS = {
+ "C05": dict(
+   technique="exhaustive enumeration of partitions, compositions and completion orders through a joblib model driven by the explorer; stateless preemption-bounded schedule exploration (sys.monitoring INSTRUCTION-level scheduler, real threads, one running at a time) of the shared-memory regions; conformance runs against real joblib",
+   text="(1) _partition_contexts is checked for every n<=64, n_jobs and cpu count; (2) for every neighbourhood combination, every query batch up to the bound, every composition into contiguous chunks is run through the library's own _parallel_predict on isolated pickled copies and on the shared object in every completion order and must give the n_jobs=1 result; (3) per-arm fit tasks, LSH insert tasks and threading-backend prediction tasks are executed under every schedule with at most B preemptions at attribute/subscript/call granularity and must reproduce the sequential model and outputs, plus a free-running recorder pass checking disjoint write sets; (4) the joblib model is compared with real joblib backends.",
+   note="batches <=4 rows (quick) / <=6 (thorough); preemption bound 1 / 2; NumPy/scikit-learn calls atomic; only receivers in the shared bandit graph are preemptible; known finding F-C05-a (TreeBandit draws from the main generator inside tasks) attributed by trigger + in-memory repair",
+   ref="DESIGN.md sections 3.4 and 7 (C05)"),
  "C11": dict(
    technique="bounded exhaustive enumeration of stored-row tuples over {-1,0,1}^d x assignments x compositions x LSH settings x n_jobs x queries (stored, scaled, grid, zero) against an exact-rational sign-pattern oracle built from the bandit's own hyperplanes",
    text="Every tuple of up to n vectors of {-1,0,1}^d (zero vector included) is stored through every composition into fit + partial_fit*, for three (n_dimensions, n_tables) settings and hashing with n_jobs 1 and 2; for every query of the alphabet the expectations must equal the learning policy trained on exactly the rows whose exact sign pattern collides with the query's in at least one table, NaN if none; scaled queries must agree with the original and a stored row must find itself.",
